@@ -21,6 +21,24 @@ ECHO1 = convs.echo_rq(1)
 USER_MSG3 = convs.store_rq_pdus(2, pc_id=3)            # 3 fragments (1 command + 2 data)
 
 
+# the provider's own maximum PDU length (what it asks the peer to respect for P-DATA-TF); it has no bearing on
+# the state machine, and association PDUs are not subject to it
+OWN_MAX = [65536, 65536, 0, 48, 4096]
+
+
+def eager_ok(prefix, max_pdu):
+    """May the next network action be delivered back-to-back with the current step?  When the provider reads in
+    small chunks, a peer PDU racing a multi-fragment P-DATA request is legitimately recognised some fragments
+    later than the model's fixed interleaving assumes (it is not yet complete), so that combination is not
+    generated: the race is covered with the large read size."""
+    if max_pdu in (0, 65536):
+        return True
+    i = len(prefix) - 1
+    while i >= 0 and H.is_eager(prefix[i]):
+        i -= 1
+    return not (i >= 0 and prefix[i]['a'] == 'user' and len(prefix[i].get('msg', ())) > 1)
+
+
 def peer_progress(model):
     """0 = no message in progress from the peer, 1 = command started, 2 = command done (data pending)."""
     r = model.reasm
@@ -68,10 +86,10 @@ def tick_alphabet(model):
     return [{'a': 'tick', 'dt': 2.0}, {'a': 'tick', 'dt': 6.0}, {'a': 'tick', 'dt': 11.5}]
 
 
-def run_history(role, hist):
-    case = {'role': role, 'history': hist}
+def run_history(role, hist, max_pdu=65536):
+    case = {'role': role, 'history': hist, 'max_pdu': max_pdu}
     pred, model = H.predict(role, hist)
-    sim, obs, pre = H.observe(role, hist)
+    sim, obs, pre = H.observe(role, hist, max_pdu=max_pdu)
     H.compare(PROP, role, hist, pred, sim, obs, case)
     return pred, model
 
@@ -84,20 +102,20 @@ def classify(role, hist, pred):
     return states, cells, (6 in states) or abnormal
 
 
-def dfs(ctx, role, depth, prefix, model_factory, seen_cells, eager_variants=False):
+def dfs(ctx, role, depth, prefix, model_factory, seen_cells, eager_variants=False, max_pdu=65536):
     """Enumerate all histories extending prefix up to `depth` more steps."""
     pred, model = H.predict(role, prefix)
     if prefix:
         try:
-            sim, obs, pre = H.observe(role, prefix)
-            H.compare(PROP, role, prefix, pred, sim, obs, {'role': role, 'history': prefix})
+            sim, obs, pre = H.observe(role, prefix, max_pdu=max_pdu)
+            H.compare(PROP, role, prefix, pred, sim, obs, {'role': role, 'history': prefix, 'max_pdu': max_pdu})
         except Violation as v:
             ctx.fail(v.key, v.what, v.case)
             ctx.case((role, prefix), True, labels=['dfs', 'violating'])
             return        # do not extend a violating history (everything behind it is suspect)
         states, cells, nt = classify(role, prefix, pred)
         seen_cells |= cells
-        ctx.case((role, prefix), nt, labels=['dfs', 'len=%d' % len(prefix), 'role=' + role],
+        ctx.case((role, prefix, max_pdu), nt, labels=['dfs', 'len=%d' % len(prefix), 'role=' + role, 'own-max=%d' % max_pdu],
                  sample={'role': role, 'history': [brief_action(a) for a in prefix]})
     if depth == 0:
         return
@@ -110,10 +128,10 @@ def dfs(ctx, role, depth, prefix, model_factory, seen_cells, eager_variants=Fals
         alphabet += tick_alphabet(model)
     for act in alphabet:
         variants = [act]
-        if eager_variants and act['a'] in H.NET:
+        if eager_variants and act['a'] in H.NET and eager_ok(prefix, max_pdu):
             variants.append(dict(act, eager=True))
         for v in variants:
-            dfs(ctx, role, depth - 1, prefix + [v], model_factory, seen_cells, eager_variants)
+            dfs(ctx, role, depth - 1, prefix + [v], model_factory, seen_cells, eager_variants, max_pdu)
 
 
 def brief_action(a):
@@ -133,7 +151,7 @@ def brief_action(a):
 def run_dfs(ctx, job):
     warnings.simplefilter('ignore')
     cells = set()
-    dfs(ctx, job['role'], job['depth'], job['prefix'], None, cells, job.get('eager', False))
+    dfs(ctx, job['role'], job['depth'], job['prefix'], None, cells, job.get('eager', False), job.get('max_pdu', 65536))
     ctx.extra['cells'] = set('Sta%d/Evt%d:%s' % (c[0], c[2], c[1]) for c in cells)
 
 
@@ -208,23 +226,28 @@ def walk(draw, max_len=30):
         _, m2 = H.predict(role, hist)
         m = m2
         now = H.START + sum(a['dt'] for a in hist if a['a'] == 'tick')
-    return role, hist
+    max_pdu = draw(st.sampled_from(OWN_MAX))
+    for i, act in enumerate(hist):
+        if act.get('eager') and not eager_ok(hist[:i], max_pdu):
+            max_pdu = 65536
+            break
+    return role, hist, max_pdu
 
 
 def run_walks(ctx, n, cells_out=None):
     def fn(value):
-        role, hist = value
+        role, hist, max_pdu = value
         if not hist:
             return
         pred, model = H.predict(role, hist)
         states, cells, nt = classify(role, hist, pred)
         if cells_out is not None:
             cells_out.update(cells)
-        ctx.case((role, hist), nt, labels=['walk', 'role=' + role, 'len=%d' % (len(hist) // 5 * 5)] +
+        ctx.case((role, hist, max_pdu), nt, labels=['walk', 'role=' + role, 'own-max=%d' % max_pdu, 'len=%d' % (len(hist) // 5 * 5)] +
                  ['reached-Sta%d' % s for s in states],
                  sample={'role': role, 'history': [brief_action(a) for a in hist]})
-        sim, obs, pre = H.observe(role, hist)
-        H.compare(PROP, role, hist, pred, sim, obs, {'role': role, 'history': hist})
+        sim, obs, pre = H.observe(role, hist, max_pdu=max_pdu)
+        H.compare(PROP, role, hist, pred, sim, obs, {'role': role, 'history': hist, 'max_pdu': max_pdu})
     hyp_search(ctx, walk(), fn, n, name='C05-walk')
 
 
@@ -301,7 +324,11 @@ def run(ctx):
             for act in alphabet_after(role, prefix):
                 variants = [act] + ([dict(act, eager=True)] if act['a'] in H.NET else [])
                 for v in variants:
-                    jobs.append({'role': role, 'depth': depth - 1, 'prefix': prefix + [v], 'eager': True})
+                    own = 65536 if len(jobs) % 2 == 0 else 48
+                    if v.get('eager') and not eager_ok(prefix, own):
+                        own = 65536
+                    jobs.append({'role': role, 'depth': depth - 1, 'prefix': prefix + [v], 'eager': True,
+                                 'max_pdu': own})
     parallel(ctx, run_dfs, jobs)
     ctx.label('dfs-jobs', len(jobs))
     if ctx.thorough:
@@ -316,4 +343,4 @@ def run(ctx):
 
 def replay(case):
     warnings.simplefilter('ignore')
-    run_history(case['role'], case['history'])
+    run_history(case['role'], case['history'], case.get('max_pdu', 65536))
